@@ -4962,6 +4962,24 @@ let code_word w =
                            then CX XNot
                            else CBad
 
+(** val span_name : nat -> char list -> char list * char list **)
+
+let rec span_name fuel s =
+  let (w, r) = span_while is_idc s in
+  (match fuel with
+   | O -> (w, r)
+   | S f ->
+     (match r with
+      | [] -> (w, r)
+      | d::s1 ->
+        (match s1 with
+         | [] -> (w, r)
+         | a::r' ->
+           if (&&) ((=) d '.') (is_alpha_ a)
+           then let (w2, r2) = span_name f (a::r') in
+                ((append w ('.'::w2)), r2)
+           else (w, r))))
+
 (** val lex_code : nat -> char list -> ctok list **)
 
 let rec lex_code fuel s =
@@ -5013,7 +5031,8 @@ let rec lex_code fuel s =
                                            k)) :: (lex_code f r3)
                                          | None -> CBad :: [])
                                       | None ->
-                                        let (w, r1) = span_while is_fnc s in
+                                        let (w, r1) = span_name (length0 s) s
+                                        in
                                         (code_word w) :: (lex_code f r1))
                                 else (tok_of_char c) :: (lex_code f r))
 
